@@ -326,6 +326,8 @@ def expected_cells(sol):
             cols.append([("f", np.float64(x).tobytes()) for x in a.tolist()])
         elif a.dtype.kind in "iu":
             cols.append([("i", int(x)) for x in a.tolist()])
+        elif a.dtype.kind == "c":
+            cols.append([("c", np.array([complex(x).real, complex(x).imag], dtype="<f8").tobytes()) for x in a.tolist()])
         else:
             cols.append([("s", "" if x is None else str(x)) for x in a.tolist()])
     return [list(row) for row in zip(*cols)] if cols else []
